@@ -91,9 +91,9 @@ func universesFor(ctx *vrun.Ctx, mining bool) []*Universe {
 	if !mining {
 		us = append(us, EvictionBoundary()) // slowest TLC run first
 	}
-	want := map[string]bool{"rbf": true, "orphans": true, "reorg": true, "reorgsmall": true, "locktime": true}
+	want := map[string]bool{"rbf": true, "orphans": true, "reorg": true, "reorgsmall": true, "locktime": true, "locknonstd": true}
 	if mining {
-		want = map[string]bool{"reorg": true, "mining": true, "sigops": true, "retarget": true}
+		want = map[string]bool{"reorg": true, "mining": true, "sigops": true, "retarget": true, "locknonstd": true}
 	}
 	for _, u := range BuiltinUniverses() {
 		if ctx.Thorough || want[u.Name] {
@@ -182,6 +182,7 @@ func runBoth(ctx *vrun.Ctx, mining bool) error {
 			if mining {
 				tc = NewTemplateChecker(ctx, m, m.Mining)
 				w.OnState = tc.OnState
+				w.OnDiverge = tc.OnDiverge
 				w.OnPathEnd = func(e *Env) {
 					if bad, _ := tc.FullValidation(e); bad != "" {
 						ctx.Violation("template:process-block", fmt.Sprintf("universe %s: %s", m.U.Name, bad), map[string]any{"universe": m.U})
